@@ -21,7 +21,7 @@ ASSUMPTIONS = [
     "expected ascending order: Python ordering of the label tuples, category position for categoricals",
 ]
 SHAPES = ["array", "series", "list", "dict", "frame", "2d"]
-N_CASES = {"quick": 700, "thorough": 16000}
+N_CASES = {"quick": 700, "thorough": 8000}
 
 
 def plan(tier):
